@@ -499,6 +499,138 @@ def all_scenarios(tier):
     return out
 
 
+def timing_independent(scn):
+    """Scenarios whose default schedule does not depend on how long anything takes: every request has timeout 0, scheduled events
+    lie in the past.  These are replayed on a REAL pty, real pipes, real select and real signal delivery."""
+    if scn["family"] == "large_burst":
+        return False
+    for it in scn["script"]:
+        if it[0] == "req" and it[1] != 0:
+            return False
+        if it[0] == "sched" and it[2] >= T0:
+            return False
+    return True
+
+
+def real_run(scn):
+    """The scenario's default schedule on the real kernel. Returns the observation list in the same format as run_scenario."""
+    global _EV
+    import os
+    import select
+    import signal
+    import time
+
+    import curtsies.input as ci
+    from curtsies import events
+
+    vk.uninstall()
+    ci.getpreferredencoding = lambda: "utf-8"
+    if _EV is None:
+        _EV = make_events()
+    Tag, TsTag, Sched = _EV
+    master, slave = os.openpty()
+
+    class RealStream:
+        encoding = "utf-8"
+
+        def fileno(self):
+            return slave
+
+    obs = []
+    before_fds = set(os.listdir("/proc/self/fd"))
+    inp = ci.Input(in_stream=RealStream(), keynames="bytes", paste_threshold=scn["paste_threshold"], sigint_event=scn["sigint_event"])
+    try:
+        with inp:
+            cbs = {"plain": inp.event_trigger(Tag), "ts": inp.threadsafe_event_trigger(TsTag), "sched": inp.scheduled_event_trigger(Sched)}
+
+            def request():
+                try:
+                    r = inp.send(0)
+                except Exception as ex:  # noqa
+                    obs.append("exception:" + type(ex).__name__)
+                    return "stop"
+                if r is None:
+                    obs.append("None")
+                elif isinstance(r, bytes):
+                    obs.append(("key", r))
+                elif isinstance(r, events.PasteEvent):
+                    obs.append(("paste", tuple(r.events)))
+                elif isinstance(r, events.SigIntEvent):
+                    obs.append("sigint")
+                elif isinstance(r, Sched):
+                    obs.append(("sched", "past"))
+                elif isinstance(r, TsTag):
+                    obs.append(("ts", r.tag))
+                elif isinstance(r, Tag):
+                    obs.append(("event", r.tag))
+                return r
+
+            stopped = False
+            for it in scn["script"]:
+                k = it[0]
+                if k == "req":
+                    if request() == "stop":
+                        stopped = True
+                        break
+                elif k == "bytes":
+                    # the pty hands data to the line discipline asynchronously: wait until all of it is readable
+                    import array
+                    import fcntl as _fcntl
+                    import termios as _termios
+
+                    def pending():
+                        buf = array.array("i", [0])
+                        _fcntl.ioctl(slave, _termios.FIONREAD, buf)
+                        return buf[0]
+
+                    want = pending() + len(it[1])
+                    os.write(master, it[1])
+                    deadline = time.time() + 2.0
+                    while pending() < want and time.time() < deadline:
+                        select.select([], [], [], 0.0005)
+                elif k == "unget":
+                    inp.unget_bytes(it[1])
+                elif k == "event":
+                    cbs["plain"](tag=it[1])
+                elif k == "ts":
+                    cbs["ts"](tag=it[1])
+                elif k == "sched":
+                    cbs["sched"](time.time() - 1.0)
+                elif k == "sigint":
+                    signal.raise_signal(signal.SIGINT)
+            if not stopped:
+                nones = 0
+                for _ in range(80):
+                    r = request()
+                    if r == "stop":
+                        break
+                    nones = nones + 1 if r is None else 0
+                    if nones >= 2:
+                        break
+    finally:
+        for name in set(os.listdir("/proc/self/fd")) - before_fds:
+            try:
+                os.close(int(name))
+            except (OSError, ValueError):
+                pass
+        os.close(master)
+        os.close(slave)
+    return obs
+
+
+def normalise_obs(obs):
+    out = []
+    for o in obs:
+        if isinstance(o, tuple) and o[0] == "sched":
+            out.append(("sched", "past"))
+        else:
+            out.append(o)
+    # the virtual run has two drain phases (the second after advancing the clock): trailing Nones are not significant
+    while out and out[-1] == "None":
+        out.pop()
+    return out
+
+
 def shard(args):
     tier, seed, idx, nshards, bound = args
     acc = Acc(seed=seed, sample_stride=4999)
@@ -532,6 +664,21 @@ def shard(args):
         acc.state(hash(si))
         if not complete:
             acc.add("scenarios_capped")
+        # ---- validation of the virtual kernel against the real one ---------------------------------------------
+        if timing_independent(scn):
+            virt, vfails, _ = run_scenario(scn, vk.Chooser(()))
+            real = None
+            for attempt in range(3):  # the real kernel is the only non-deterministic party: a disagreement must be reproducible
+                try:
+                    real = real_run(scn)
+                except Exception as ex:  # noqa
+                    real = ["real run failed: %r" % (ex,)]
+                if normalise_obs(virt) == normalise_obs(real):
+                    break
+            if normalise_obs(virt) != normalise_obs(real):
+                acc.failure("harness:virtual_kernel_disagrees_with_real_kernel", {"scenario": shown, "virtual": [str(o) for o in virt], "real": [str(o) for o in real]}, "observation sequences differ")
+            else:
+                acc.validated += 1
     return acc.export()
 
 
@@ -541,7 +688,6 @@ def run(ctx):
     ns = 128
     for d in ctx.pmap(shard, [(ctx.tier, ctx.seed, i, ns, bound) for i in range(ns)]):
         rep.merge(d)
-    rep.validated = rep.n
     rep.exhaustive = not rep.extra.get("scenarios_capped")
     rep.extra["deviation_bound_completed"] = bound
     rep.extra["scenarios"] = len(all_scenarios(ctx.tier))
@@ -554,7 +700,9 @@ def run(ctx):
         "states = scenarios; distinct outcomes = distinct observation sequences" % (len(all_scenarios(ctx.tier)), bound)
     )
     rep.assumptions = [
-        "the virtual kernel (mc/vk.py) models os/select/time/fcntl/signal as CPython uses them; list.append is atomic under the GIL",
+        "the virtual kernel (mc/vk.py) models os/select/time/fcntl/signal as CPython uses them; list.append is atomic under the GIL; every "
+        "timing-independent scenario's default schedule is replayed on a real pty, real pipes, real select and real signal delivery and must "
+        "produce the same observation sequence (traces_validated_against_impl)",
         "no requirement on priority between sources; an event_trigger event fired during a blocked request need not wake it (documented)",
         "scheduling points are the kernel calls made by the library (select, read, time, fcntl, signal), not every bytecode",
     ]
